@@ -19,6 +19,72 @@ CHECKS = {
         note="modelled not verified: CPython struct/bytes slicing, the fake socket files standing for the ssh pipe.",
         design="DESIGN.md §5 C07",
         technique="Coq proof (induction on stream length, append-compositionality of decode) + extracted-model differential correspondence"),
+
+    "C03": dict(
+        text=("24 theorems over every well-formed plan and every packet (Props/C03.v): the code's sort key is the property's "
+              "specificity order; first match in the descending list (last match ascending for pf) is a matching entry of maximal key; "
+              "for nat, nft, tproxy and both pf rule shapes the modelled packet walk over the generated rules diverts TCP exactly when "
+              "the most specific matching entry is an include (and the owner matches where implemented), DNS exactly for the configured "
+              "name servers, other UDP only under tproxy+udp. Tied to /repo by comparing the argv / pf text the real setup_firewall emits "
+              "token for token with the model's printer and by walking sampled packets over the rules the real code emitted."),
+        note="modelled not verified: the kernel's iptables/nft/pf matching semantics (validated against real netfilter in a namespace in the thorough tier; pf cannot be validated here). Known finding F18 excluded exactly by c03_tproxy_dns_partial.",
+        design="DESIGN.md §5 C03",
+        technique="Coq proof (sorting + first-match lemmas, per-method walk theorems) + rule-text correspondence + packet-walk oracle on emitted rules"),
+    "C10": dict(
+        text=("22 theorems over all event sequences of the datagram state machines (Props/C10.v): query relayed verbatim on a fresh "
+              "identifier, resolver target and at most 3 attempts with retry only after NET_ERRS, first reply relayed once and handler retired, "
+              "reply to the recorded asker from the recorded destination, at most one datagram per query over whole runs, exact lazy expiry, "
+              "no exception for any socket outcome or identifier exhaustion. Tied to /repo by running the real client ondns/dns_done/"
+              "expire_connections and the real server.main loop with DnsProxy on scripted sockets and a virtual clock, every step compared."),
+        note="modelled not verified: UDP socket semantics, getaddrinfo, CPython dict ordering. c10_no_cross is conditional on the stated no_stale_reuse hypothesis; the whole-server no-crash statement is proved per code path (c10_server_no_crash_full kept as an unproved Definition).",
+        design="DESIGN.md §5 C10",
+        technique="Coq proof (invariants over event sequences of an executable state machine with virtual time) + step-by-step differential correspondence"),
+    "C11": dict(
+        text=("18 theorems (Props/C11.v): header round trip for every address text, port and payload incl. commas, one captured datagram = "
+              "one sendto with identical payload to the dialled address on the association's single socket, replies delivered once to the source, "
+              "shared channel per source with deadline refresh, idle expiry closing both ends and a fresh identifier afterwards, frame size bound, "
+              "no exception for any socket outcome. Same correspondence harness as C10 with the real tproxy recv_udp/send_udp on scripted cmsg data."),
+        note="modelled not verified: UDP socket semantics, tproxy transparent bind; same address-family constants on both ends is an assumption. c11_server_no_crash_full kept as an unproved Definition.",
+        design="DESIGN.md §5 C11",
+        technique="Coq proof (codec round trip + state-machine invariants) + step-by-step differential correspondence"),
+    "C13": dict(
+        text=("13 theorems over all valid plans, host updates and truncation points (Props/C13.v): every rendered line is <= 70 bytes; "
+              "helper_parse(render plan) = plan field by field for every read limit that is absent or >= 70; host updates of any name length "
+              "round-trip with the whole-line reader (the 128-byte reader is proved correct only up to len(name)+len(ip) <= 121 and refuted beyond: F5, fixed); "
+              "a dialogue cut anywhere before the pid makes the helper do nothing; after GO every exit goes through the clean-up of exactly that plan. "
+              "Tied to /repo by piping the real FirewallClient.start/sethostip output into the real firewall.main with a recording method."),
+        note="modelled not verified: CPython int()/strip/split/readline semantics (differential-tested). A cut inside the pid digits of the GO line is outside the property's quantifier and reported as an observation.",
+        design="DESIGN.md §5 C13",
+        technique="Coq proof (renderer/parser round trip, induction over line lists and cut positions) + three-way differential correspondence"),
+    "C14": dict(
+        text=("17 theorems (Props/C14.v) over all file contents, host maps, ports, crash points and histories: the rewrite result is byte for byte "
+              "the old lines without this port's marked lines plus one marked line per sorted entry (modulo exactly Python's trailing-whitespace "
+              "normalisation, stated); marker injectivity over ports; only rename changes the hosts path and every crash point leaves the previous "
+              "or the complete next version; serial histories of any number of instances keep base lines and each instance's last map. "
+              "Interleaved instances: refuted with witnesses (known finding F8), partial theorem proved (never half-written, base lines never lost). "
+              "Tied to /repo by running the real rewrite_etc_hosts/restore_etc_hosts on a scratch directory with audit hooks, forked crash points and gated threads."),
+        note="modelled not verified: POSIX rename atomicity, link/copy semantics, Python text-mode decoding (UTF-8, universal newlines). Not covered: shutil.move fallback, undecodable hosts file.",
+        design="DESIGN.md §5 C14",
+        technique="Coq proof (step machine over file-system primitives, induction over crash index / history / schedule) + primitive-trace correspondence"),
+    "C16": dict(
+        text=("23 theorems over all argument texts (Props/C16.v): parse_subnetport/parse_ipport always yield a value or a usage error; "
+              "parse(render spec) returns the resolver's address, the given or maximal width and the port range for IPv4-form and IPv6-form hosts; "
+              "width range check; every numbers-and-dots IPv4 spelling resolves to the dotted quad of its value; listen and remote specifications "
+              "decompose into user/password/host/port; command line overrides the environment. Tied to /repo by running the real parsers and "
+              "argparse on ~15k generated spellings, mutants and garbage with getaddrinfo real for numeric literals and tabled for names."),
+        note="modelled not verified: Python re semantics (re-implemented recognisers, differential-tested), glibc inet_aton/inet_pton/inet_ntop, argparse dispatch. c16_canonical_v6_full and c16_hostport_port_full are kept as unproved Definitions (covered by correspondence and a 6561-case kernel sweep).",
+        design="DESIGN.md §5 C16",
+        technique="Coq proof (structural recognisers equal to the regexes on rendered inputs, totality by case analysis) + differential correspondence with ipaddress/inet_pton oracles"),
+    "C19": dict(
+        text=("19 theorems (Props/C19.v): for every scanner byte stream and every cutting into reads the HOST_LIST payloads concatenate to the "
+              "longest newline-terminated prefix with every record relayed exactly once; every line that reaches the hosts file is "
+              "'<dotted quad> <name over [-A-Za-z0-9_.]+> <marker>'; the repaired client never raises and skips malformed records; found_host/"
+              "read_host_cache are total. As-found behaviour refuted with witnesses (F13, F19, F24, F25: fixed; F26: known finding). "
+              "Tied to /repo by running the real hostwatch functions, the real hostwatch_ready closure of server.main, the real onhostlist closure of "
+              "client._main, sethostip, and the real helper HOST loop with rewrite_etc_hosts on scratch files."),
+        note="modelled not verified: Python re/str classification tables above U+007F are parameters supplied by the harness per case; UTF-8 remote locale assumed.",
+        design="DESIGN.md §5 C19",
+        technique="Coq proof (stream-level splitter spec by induction on the chunk list, filter characterisation) + pipeline differential correspondence"),
 }
 
 NOT_YET = {}
